@@ -9,7 +9,9 @@ TRANSLATOR = ["layouts", "families"]
 
 TRUSTED = [
     "Coq 8.16.1 kernel; no axioms",
-    "PARTIAL: proved = acceptance depends only on the tag sequence and the field parsers' verdicts, and accepted texts are reproduced exactly (Props/C03.v); NOT proved = inclusion of the specification's tag language in the accepted language; that part is enumeration of structures (bounded repetitions) on the library and the extracted model",
+    "proved (Props/C03.v): for 24 types the tag language of the independent specification is included in the language the regenerated layout accepts (unbounded; abstract interpreter Engine/Abs.v, soundness Engine/AbsSound.v, verdict recomputed on every run), for 5 open types the specification minus the listed deviations, with refutation witnesses for the open types; accepted texts are reproduced exactly; acceptance depends only on tags and parser verdicts",
+    "hypothesis of the inclusion theorem on contents: every parser the layout may apply to a token's tag accepts it, a family accepts exactly its own letters (C14); the run counts the real parsers' answers for and against it (stats parser_answers_*); contents themselves are C05's subject",
+    "lib/spec2v.py renders spec/mt_layouts.json and spec/mt_layouts_restricted.json into gen/Specs.v; tie: every generated specification message (generator lib/specgen.py reading the same JSON) is a word of the rendered expression, decided by the extracted matcher matchb (proved equal to the language)",
     "independent specification spec/mt_layouts.json (30 types) and spec/field_examples.json (87 tag/option keys), written by hand from SR2025; a transcription error there is a false alarm or a miss",
     "translator rs2v (layouts); the transcription of the byte-level extractor is tied by correspondence; that it realises the token cursor on canonical texts is proved (Engine/Factor.v) and every generated text of this stream is checked to be in that class",
 ]
